@@ -133,6 +133,10 @@ def check_engine(case, ctx):
             o = int(find_best_overlap(ref, nxt))
             overlaps.append(o)
             ref = ref[:len(ref) - (o + 1) // 2] + nxt[o // 2:]
+        it = iter(tr[k])
+        if not all(ch in it for ch in text.replace('_', '')):
+            ctx.violation('text-kept', f'{ID}/engine/line-loses-characters', f'{desc}: line {k} -> {tr[k]!r} lost characters of {text!r}')
+            return
         if tr[k] != ref:
             ctx.violation('text-kept', f'{ID}/engine/line-text-differs-from-merge-of-its-windows',
                           f'{desc}: line {k} -> {tr[k]!r}; its windows {parts} merge (overlaps {overlaps}) to {ref!r}')
@@ -199,7 +203,7 @@ def run_shard(shard, ctx, tier):
                 parts = windows(text, w, w - ov)
                 if len(parts) < 2 or len(parts) > 4:
                     continue
-                guarded_check(mod, {'parts': parts, 'window': [w, ov]}, ctx)
+                guarded_check(mod, {'parts': parts, 'window': [w, ov], 'text': text}, ctx)
                 # recognition noise inside the first overlap: substitute / delete one character of the second part
                 for pos in range(min(ov, len(parts[1]))):
                     p1 = parts[1]
@@ -281,6 +285,14 @@ def check_case(case, ctx):
                 ctx.violation('begins-with-first-ends-with-last', f'{K}/ends', desc)
         if all(o == 0 for o in overlaps) and text != ''.join(parts):
             ctx.violation('no-overlap-means-concatenation', f'{K}/zero-overlap-not-concatenated', desc)
+        if 'window' in case and 'noise' not in case and 'text' in case:
+            # true overlapping windows of one text, recognised without noise: no character of the text may be lost
+            it = iter(text)
+            if not all(ch in it for ch in case['text']):
+                ctx.violation('text-kept', f'{K}/true-windows-lose-characters',
+                              f'{desc}: the windows come from {case["text"]!r} (width {case["window"][0]}, overlap {case["window"][1]}), '
+                              f'which is not contained (as a subsequence) in the merged text')
+                continue
         if extra == 0:
             ctx.outcome((len(text), tuple(overlaps)))
             if any(o > 0 for o in overlaps) and any(o == 0 for o in overlaps):
